@@ -434,6 +434,52 @@ theorem C13_checkView (I : Ignore) (hI : I.WF) (evs : List Ev) (hwf : ∀ e ∈ 
   rw [index_view_count]
   exact C13_view_eq_head I hI diffTrees diffTrees_valid evs hwf d thr brs b hb p x
 
+/-! ## a delta run without new commits -/
+
+theorem filterMap_eq_nil_of_forall {α β} (f : α → Option β) (l : List α) (h : ∀ a ∈ l, f a = none) :
+    l.filterMap f = [] := by
+  induction l with
+  | nil => rfl
+  | cons a r ih =>
+    rw [List.filterMap_cons, h a (by simp)]
+    exact ih (fun b hb => h b (List.mem_cons_of_mem _ hb))
+
+theorem diffTrees_self (t : Tree) (h : TreeWF t) : diffTrees t t = [] := by
+  unfold diffTrees
+  rw [filterMap_eq_nil_of_forall, filterMap_eq_nil_of_forall]
+  · rfl
+  · intro e he
+    have := tget_of_mem t h e.1 e.2 he
+    simp [this]
+  · intro e he
+    have := tget_of_mem t h e.1 e.2 he
+    simp [this]
+
+theorem prepareDelta_self (r : Repo) (hr : RepoWF r) (brs : List Branch) :
+    prepareDelta diffTrees r r brs = ([], []) := by
+  unfold prepareDelta
+  suffices h : ∀ (bs : List Branch) (st : Files × List Path),
+      bs.foldl (fun st b => (diffTrees (head r b) (head r b)).foldl (applyChange r brs b) st) st = st from h brs _
+  intro bs
+  induction bs with
+  | nil => intro st; rfl
+  | cons b bs ih =>
+    intro st
+    rw [List.foldl_cons, diffTrees_self _ (hr b)]
+    exact ih st
+
+/-- **a delta run without new commits is a no-op**: it writes no shard and adds no tombstone -/
+theorem delta_without_commits_is_noop (idx : Index) (hr : RepoWF idx.snap) :
+    deltaBuild diffTrees idx idx.snap = idx := by
+  unfold deltaBuild
+  rw [prepareDelta_self idx.snap hr idx.brs]
+  simp only [List.append_nil, List.isEmpty_nil, if_true]
+  cases idx with
+  | mk shards brs snap =>
+    simp only [Index.mk.injEq, and_true]
+    have : (fun s : Shard => (⟨s.docs, s.tombs⟩ : Shard)) = id := by funext s; cases s; rfl
+    rw [this, List.map_id]
+
 /-! ## builds that write several shards -/
 
 theorem sum_cnt_split (cuts : List Nat) (m : Files) (b : Branch) (p : Path) (x : Blob) :
